@@ -45,8 +45,10 @@ def setup():
     for k, v in gen.items():
         print("gen %s: %s" % (k, "ok" if v is None else "FAILED " + v))
     targets = ["DendroModel"]
+    claimed = json.load(open(os.path.join(VERIF, "claimed.json")))
     for p in available_props():
-        targets += prop_targets(load(p))
+        if p in claimed:
+            targets += prop_targets(load(p))
     ok, out = leanio.build(sorted(set(targets)), timeout=7200)
     print(out[-3000:])
     print("setup %s in %.0fs" % ("ok" if ok else "FAILED", time.time() - t0))
